@@ -1375,10 +1375,18 @@ func (s *BgpServer) processRTCMembership(peer *peer, path *table.Path) {
 	fs := peerNonRTCFamilies(peer)
 	s.rtcVPNCandidates(peer, path.IsWithdraw, rt, fs, func(paths []*table.Path, filtered []*table.Path) {
 		if path.IsWithdraw {
-			// Skips filtering: paths are already scoped to this RT and withdrawals
-			// do not need path attributes.
-			peer.updateRoutes(filtered...)
-			sendfsmOutgoingMsg(peer, filtered)
+			// The candidates are scoped to the withdrawn RT, but a route that
+			// also carries another RT the peer still has a membership for (or
+			// any route, if the peer holds the default membership) stays
+			// advertised.
+			withdrawn := make([]*table.Path, 0, len(filtered))
+			for _, p := range filtered {
+				if !peer.interestedIn(p) {
+					withdrawn = append(withdrawn, p)
+				}
+			}
+			peer.updateRoutes(withdrawn...)
+			sendfsmOutgoingMsg(peer, withdrawn)
 			return
 		}
 		if peer.getRtcEORWait() {
